@@ -442,8 +442,21 @@ impl H {
         sim.install_clock_here();
         let disk = InMemory::new();
         let mut model: Model = BTreeMap::new();
-        for (k, v) in &case.legacy {
-            block(put_legacy_meta_object(&disk, &key_path(*k), v.bytes()));
+        for (i, (k, v)) in case.legacy.iter().enumerate() {
+            match case.wrapper {
+                // pre-auth layout and the sealed 0.9.x layout, alternating per key;
+                // written with the chunk size the store is configured with
+                WrapperKind::Enc(chunk, strict) => {
+                    // strict mode refuses unauthenticated metadata by design
+                    let sealed = strict || (case.seed as usize + i) % 2 == 0;
+                    block(put_legacy_enc_object(&disk, &key_path(*k), v.bytes(), chunk, sealed, case.seed ^ (i as u64 + 1) << 32));
+                    rep.probe(if sealed { "legacy_sealed_v1_objects_seeded" } else { "legacy_preauth_objects_seeded" }, 1);
+                }
+                _ => {
+                    block(put_legacy_meta_object(&disk, &key_path(*k), v.bytes()));
+                    rep.probe("legacy_meta_objects_seeded", 1);
+                }
+            }
             model.insert(*k, v.bytes());
         }
         let store = SimStore::new(sim.clone(), disk);
@@ -870,7 +883,7 @@ impl Harness for H {
         match mode {
             Mode::Sweep => {
                 let mut legacy = Vec::new();
-                if wrapper == WrapperKind::Meta && rng.chance(1, 3) {
+                if rng.chance(1, 3) {
                     for k in 0..nkeys {
                         if rng.bool() {
                             legacy.push((k, gen_val(&mut rng, &mut tag, chunk)));
